@@ -35,7 +35,7 @@ def run(ctx):
     conf = {'cases': 8, 'texts': 10, 'max_per_field': 8} if ctx.quick else {'cases': 10 ** 6, 'texts': 160, 'max_per_field': 14}
     specs = sh.trace_specs(ctx, 'c08', 1 if ctx.quick else 2)
     specs += sh.trace_specs(ctx, 'texts', 1 if ctx.quick else 2, base=len(specs))
-    res = sh.generate(specs, conf)
+    res = sh.generate(specs, conf, nproc=6 if ctx.quick else 14)
     val = sh.validate_all(ctx, res)
     th.join()
     if err:
